@@ -172,7 +172,7 @@ pub fn run(e: &'static Engine) {
     }
     e.par(jobs);
     // every byte value at every position of context strings
-    let contexts: u32 = e.tier.pick(16, 400);
+    let contexts: u32 = e.tier.pick(48, 600);
     let mut jobs: Vec<Job> = Vec::new();
     for ci in 0..contexts {
         jobs.push(Box::new(move |jc: &mut JobCtx| {
@@ -207,7 +207,7 @@ pub fn run(e: &'static Engine) {
     }
     e.par(jobs);
     // long strings with one intruder
-    let total: u32 = e.tier.pick(600, 20000);
+    let total: u32 = e.tier.pick(6400, 96000);
     let shards = e.tier.pick(16u32, 64);
     let mut jobs: Vec<Job> = Vec::new();
     for _ in 0..shards {
